@@ -366,6 +366,11 @@ func genC28s(rng *rand.Rand, tier string, w *bufio.Writer) {
 			mu.Lock()
 			defer mu.Unlock()
 			q := args[0]
+			if _, mine := keyOf[q]; !mine && name != "lock.key" {
+				// a queue object no Lock call of THIS round has fetched: the event comes from a watchdog of an earlier
+				// round's lock instance that fires late (busy machine)
+				return
+			}
 			switch name {
 			case "lock.key":
 				keyOf[q], _ = args[1].(string)
